@@ -189,6 +189,14 @@ const rootInputSchema = `input:
           type:
             type_id: ref
             id: Nested
+        ports:
+          required: false
+          type:
+            type_id: map
+            keys:
+              type_id: integer
+            values:
+              type_id: string
     Item:
       id: Item
       properties:
